@@ -173,7 +173,20 @@ CountsNonDecreasing == (done /\ Gen \in {"nearsq", "rect", "birect"}) =>
    \A j \in 1..Len(out) : \A i \in 1..(Len(out[j]) - 1) : Count(out[j][i]) <= Count(out[j][i + 1])
 CountsStrictlyIncreasing == (done /\ Gen \in {"nearsq", "rect"}) =>
    \A j \in 1..Len(out) : \A i \in 1..(Len(out[j]) - 1) : Count(out[j][i]) < Count(out[j][i + 1])
-NonEmpty == done => (Len(out) > 0 /\ \A j \in 1..Len(out) : Len(out[j]) > 0)
+\* a side admits a whole number of rows between the spacing limits (e.g. 87 m with b_min = b_max = 5 m does not)
+HasCount(l, bmax) == Ceil(l, bmax) <= Floor(l, lot.bmin)
+Admits == \/ Gen = "nearsq"
+          \/ (Gen = "rect" /\ HasCount(MaxI(lot.lx, lot.ly), lot.bmx))
+          \/ (Gen \in {"birect", "zoned"} /\ LET tr == lot.lx < lot.ly IN
+                 /\ HasCount(MaxI(lot.lx, lot.ly), IF tr THEN lot.bmy ELSE lot.bmx)
+                 /\ HasCount(IF tr THEN lot.lx ELSE lot.ly, IF tr THEN lot.bmx ELSE lot.bmy))
+NonEmpty == (done /\ Admits) => (Len(out) > 0 /\ \A j \in 1..Len(out) : Len(out[j]) > 0)
+\* a spacing window that admits no whole row count yields NO candidate (never one outside the window)
+NoCandidateWithoutCount == (done /\ ~Admits) => \A j \in 1..Len(out) : Len(out[j]) = 0
+
+\* Bisection2D relies on this: its outer selection key 0 (the single borehole tacked on in front) wraps to nested[-1], the LAST list,
+\* which is harmless only because every bi-rectangle list starts with the same single-borehole field (Search.tla, B_inner).
+BiRectListsStartWithSingle == (done /\ Gen = "birect") => \A j \in 1..Len(out) : Len(out[j]) > 0 => Count(out[j][1]) = 1
 
 Known_F4 == done /\ Gen = "zoned" /\ lot.lx < lot.ly
 
